@@ -35,8 +35,8 @@ def execMapOp (st : DState) (env : Env) (name : String) (args : List String) (ot
     no <| resOut (Map.drain cfg (foldEnv env (nat! k) w) (if nat! k = 0 then w.t.items else nat! k) false w) (fun l => String.intercalate "," (l.map (fmtElem ids))) w
   | "into_iter_fold", [k] =>
     no <| resOut (Map.intoIter cfg (foldEnv env (nat! k) w) (if nat! k = 0 then w.t.items else nat! k) w) (fun l => String.intercalate "," (l.map (fmtElem ids))) w
-  | "iter", p :: _ =>
-    match Map.iterObserve cfg w.t (nat! p) with
+  | "iter", p :: rest =>
+    match iterObserveW cfg w.t (match rest with | ["keys"] => .mapKeys | ["values"] => .mapValues | ["values_mut"] => .mapValuesMut | ["iter_mut"] => .mapIterMut | _ => .mapIter) (nat! p) with
     | .error f => ({ ret := s!"FAULT({f})", w := w }, true, none)
     | .ok (pre, folded, rest, hints) =>
       ({ ret := s!"pre={fmtNats pre} fold={fmtNats folded} rest={fmtNats rest} sh={fmtNats hints}", w := w }, false, none)
